@@ -349,7 +349,8 @@ func Run(c *vl.Ctx) {
 			c.Sample(map[string]string{"id": cases[i].ID, "program": fl.Render(cases[i].P), "expected": cases[i].Want.String()})
 		}
 	}
-	c.Count("programs_compiled", r.Programs)
+	r.Report()
+	r.Close()
 	c.Count("accepted_programs", int64(len(live)))
 	c.Assume = append(c.Assume, "rejection (at compile time) is always allowed by this property and is only counted",
 		"an out-of-range access must end in a panic (any message) after exactly the lines the reference prints before it")
